@@ -1987,6 +1987,7 @@ func (m Dot11MgmtReassociationReq) SerializeTo(b gopacket.SerializeBuffer, opts 
 	binary.LittleEndian.PutUint16(buf[0:2], m.CapabilityInfo)
 	binary.LittleEndian.PutUint16(buf[2:4], m.ListenInterval)
 
+	copy(buf[4:10], make([]byte, 6)) // the address may be shorter than 6 octets
 	copy(buf[4:10], m.CurrentApAddress)
 
 	return nil
